@@ -337,7 +337,7 @@ func (c *Ctx) checkClosedFormEigens() {
 		L.Check(ok, "eigen-literal", label, "eigenvalue 0 with stationary left vector and unit right vector", c.P.Pos(fd.Pos()),
 			"val[0] = 0, L[0] = (πA,πC,πG,πT), R[·][0] = 1", "the stationary eigen-pair of F84 is broken: P(t) would not converge to the base frequencies / rows would not sum to 1")
 	}
-	L.Floor("eigen-literal", 6, "JC 3, K2P 2, F84 1")
+	L.Floor("eigen-literal", 3, "JC 3, K2P 2, F84 1 (floor = half of the instances on the pinned tree: a clean-up may merge instances, a rule that sees nothing must still fail)")
 }
 
 // ---------------------------------------------------------------------------
@@ -561,7 +561,7 @@ func (c *Ctx) checkRateMatrixLiterals() {
 		})
 		L.Check(okNorm && div, "rate-literal", label, "normaliser -Σ π_i·Q_ii", c.P.Pos(fd.Pos()), det+"; every entry divided by norm", "the rate matrix is not scaled to one expected substitution per unit time: "+det+fmt.Sprintf(" (divided by norm: %v)", div))
 	}
-	L.Floor("rate-literal", 33, "3 models x (4 rows + 6 pairs + normaliser)")
+	L.Floor("rate-literal", 16, "3 models x (4 rows + 6 pairs + normaliser) (floor = half of the instances on the pinned tree: a clean-up may merge instances, a rule that sees nothing must still fail)")
 }
 
 // ---------------------------------------------------------------------------
@@ -654,7 +654,7 @@ func (c *Ctx) checkProteinTables() {
 		f, _ := piSum.Float64()
 		L.Check(okPi && okSum, "protein-table", label, "20 frequencies summing to 1", c.P.Pos(fd.Pos()), fmt.Sprintf("sum = %.7f", f), fmt.Sprintf("frequency vector malformed: 20 entries once each: %v, sum = %.7f", okPi, f))
 	}
-	L.Floor("protein-table", 21, "7 models x 3")
+	L.Floor("protein-table", 10, "7 models x 3 (floor = half of the instances on the pinned tree: a clean-up may merge instances, a rule that sees nothing must still fail)")
 
 	// dispatcher
 	L.Rule("protein-dispatch", "NewProtModel maps each MODEL_* constant to the *Mats() function of the same model and rejects anything else")
@@ -701,7 +701,7 @@ func (c *Ctx) checkProteinTables() {
 		}
 		L.Check(hasDefault, "protein-dispatch", "models/protein.NewProtModel", "unknown code rejected", c.P.Pos(fd.Pos()), "default arm returns an error", "no default arm returning an error")
 	}
-	L.Floor("protein-dispatch", 8, "7 models + default")
+	L.Floor("protein-dispatch", 4, "7 models + default (floor = half of the instances on the pinned tree: a clean-up may merge instances, a rule that sees nothing must still fail)")
 }
 
 func firstStmt(b *ast.BlockStmt) ast.Stmt {
@@ -755,7 +755,7 @@ func (c *Ctx) checkModelSiblingsC18() {
 		v, _ := cInt(nk)
 		L.Check(nok && v == im.n, "model-siblings", im.rel+".(*"+im.typ+")", "NState()", c.P.Pos(ns.F.Pos()), fmt.Sprintf("returns %d", v), fmt.Sprintf("NState() returns %v, the model's matrices have dimension %d", nk, im.n))
 	}
-	L.Floor("model-siblings", 14, "7 implementors x 2")
+	L.Floor("model-siblings", 7, "7 implementors x 2 (floor = half of the instances on the pinned tree: a clean-up may merge instances, a rule that sees nothing must still fail)")
 }
 
 // ---------------------------------------------------------------------------
@@ -871,7 +871,7 @@ func (c *Ctx) checkPijAssembly() {
 	L.Check(okFloor, "pij-assembly", r.label, "floor at DBL_MIN", c.P.Pos(fn.Pos()), "the stored probability merges the computed sum with the DBL_MIN floor", "probabilities are not floored at DBL_MIN")
 	L.Check(okOwn && len(writers) == 0, "pij-assembly", r.label, "writes only the Pij object's own matrices", c.P.Pos(fn.Pos()), "Set receivers are pij.uexpt and pij.pij; these fields are assigned fresh matrices in NewPij only",
 		fmt.Sprintf("SetLength writes a matrix it does not own, or the scratch fields are re-assigned (other writers: %v): the model's cached eigenvectors can be overwritten and later P(t) depend on earlier calls", writers))
-	L.Floor("pij-assembly", 5, "five clauses")
+	L.Floor("pij-assembly", 2, "five clauses (floor = half of the instances on the pinned tree: a clean-up may merge instances, a rule that sees nothing must still fail)")
 }
 
 // ---------------------------------------------------------------------------
@@ -957,14 +957,14 @@ func (c *Ctx) checkStaleFieldReads() {
 		n++
 		L.Check(len(bad) == 0, "stale-field-read", r.label, "no stale receiver field", c.P.Pos(fn.Pos()), fmt.Sprintf("%d stores to receiver fields, no earlier load of the same field is used after its store", nStores), strings.Join(dedupe(bad), "; "))
 	}
-	L.Floor("stale-field-read", 5, "InitModel methods")
+	L.Floor("stale-field-read", 2, "InitModel methods (floor = half of the instances on the pinned tree: a clean-up may merge instances, a rule that sees nothing must still fail)")
 	L.Rule("assign-before-use", "in an InitModel method no receiver field that the call assigns (from a parameter or a fresh value) is read for computation on a path that reaches that assignment later: the user-supplied value is in force for the whole computation")
 	L.Rule("accumulator-reset", "a receiver field accumulated into (m.f = m.f + x) is assigned afresh earlier in the same call")
 	for _, r := range targets {
 		c.checkWriteAfterRead("assign-before-use", r)
 		c.checkAccumulatorReset("accumulator-reset", r)
 	}
-	L.Floor("assign-before-use", 5, "InitModel methods")
+	L.Floor("assign-before-use", 2, "InitModel methods (floor = half of the instances on the pinned tree: a clean-up may merge instances, a rule that sees nothing must still fail)")
 	_ = n
 }
 
